@@ -74,6 +74,66 @@ var semMethods = []string{
 	"Format", "Sub", "Before", "After", "Equal", "Unix", "Hour", "Month", "Weekday", "Clock", "Date", "Hours", "Seconds", "Milliseconds", "Nanoseconds", "Minutes", "SleepUntil", "a", "b", "c", "p", "x", "Missing",
 }
 
+
+// semSigs gives, for the functions whose parameters have a fixed shape, the
+// kinds expected (s string, n integer, f float, b bool, a array, m map,
+// c complex, F function value, t time, d duration, x anything). Three calls in
+// four are generated with arguments of these kinds, so that the call gets
+// past ego's argument checks and the *values* reach the native function.
+var semSigs = map[string]string{
+	"strings.Repeat": "sn", "strings.Index": "ss", "strings.Left": "sn", "strings.Right": "sn", "strings.Substring": "snn", "strings.Truncate": "sn", "strings.Split": "ss",
+	"strings.SplitN": "ssn", "strings.SplitAfterN": "ssn", "strings.Replace": "sssn", "strings.ReplaceAll": "sss", "strings.Join": "as", "strings.Fields": "s", "strings.Title": "s",
+	"strings.Chars": "s", "strings.Ints": "s", "strings.Format": "sx", "strings.Template": "sx", "strings.Tokenize": "s", "strings.TrimLeft": "ss", "strings.Trim": "ss", "strings.IndexByte": "sn",
+	"strings.IndexRune": "sn", "strings.ContainsRune": "sn", "strings.Count": "ss", "strings.Compare": "ss", "strings.ToValidUTF8": "ss", "strings.URLPattern": "ss", "strings.Length": "s",
+	"strings.Cut": "ss", "strings.CutPrefix": "ss", "strings.EqualFold": "ss", "strings.LastIndex": "ss", "strings.IndexAny": "ss", "strings.HasPrefix": "ss", "strings.NewReader": "s",
+	"strings.ToLower": "s", "strings.ToUpper": "s", "strings.TrimSpace": "s", "strings.TrimPrefix": "ss", "strings.Contains": "ss", "strings.ContainsAny": "ss",
+	"strconv.Itoa": "n", "strconv.Atoi": "s", "strconv.FormatInt": "nn", "strconv.FormatUint": "nn", "strconv.FormatFloat": "fnnn", "strconv.ParseInt": "snn", "strconv.ParseUint": "snn",
+	"strconv.ParseFloat": "sn", "strconv.Quote": "s", "strconv.Unquote": "s", "strconv.QuoteRune": "n", "strconv.QuoteToASCII": "s", "strconv.Itor": "n", "strconv.Rtoi": "s", "strconv.FormatBool": "b",
+	"strconv.ParseBool": "s", "strconv.ParseComplex": "sn", "strconv.FormatComplex": "cnnn", "strconv.IsPrint": "n", "strconv.CanBackquote": "s",
+	"math.Abs": "f", "math.Sqrt": "f", "math.Pow": "ff", "math.Floor": "f", "math.Ceil": "f", "math.Log": "f", "math.Mod": "ff", "math.Max": "nn", "math.Min": "ff", "math.Sum": "nnn", "math.Factor": "n",
+	"math.Primes": "n", "math.Random": "n", "math.Normalize": "nf", "math.Remainder": "ff", "math.Inf": "n", "math.IsNaN": "f", "math.Trunc": "f", "math.Round": "f",
+	"sort.Ints": "a", "sort.Strings": "a", "sort.Float64s": "a", "sort.Bytes": "a", "sort.Int32s": "a", "sort.Int64s": "a", "sort.Float32s": "a", "sort.Slice": "aF", "sort.SliceStable": "aF", "sort.Search": "nF",
+	"sort.SearchInts": "an", "sort.SearchStrings": "as", "sort.SearchFloat64s": "af", "sort.Sort": "a", "sort.Stable": "a", "sort.IsSorted": "a", "sort.IntsAreSorted": "a",
+	"fmt.Sprintf": "sxx", "fmt.Sscanf": "ssx", "fmt.Printf": "sxx", "json.Marshal": "x", "json.MarshalIndent": "xss", "json.Unmarshal": "sx", "json.Parse": "ss",
+	"time.Date": "nnnnnnnx", "time.Unix": "nn", "time.Parse": "ss", "time.ParseAny": "s", "time.ParseDuration": "s", "time.FixedZone": "sn", "time.LoadLocation": "s", "time.Duration": "n", "time.Since": "t",
+	"base64.Decode": "s", "base64.Encode": "s", "uuid.Parse": "s", "uuid.Gibberish": "x", "cmplx.Polar": "c", "cmplx.Pow": "cc", "cmplx.Rect": "ff", "cmplx.IsNaN": "c",
+	"reflect.DeepCopy": "xn", "reflect.Members": "x", "reflect.Reflect": "x", "reflect.Type": "x", "reflect.String": "x", "reflect.InstanceOf": "x", "errors.New": "s", "errors.Is": "xx", "errors.Unwrap": "x",
+	"i18n.T": "sx", "i18n.Format": "sx", "util.Symbols": "x", "util.Package": "s",
+	"len": "x", "append": "ax", "index": "xx", "copy": "aa", "min": "nn", "max": "nn", "delete": "mx", "close": "x", "cap": "a", "complex": "ff", "real": "c", "imag": "c", "typeof": "x", "id": "x", "fn": "n",
+}
+
+// typed method calls on the declared variables: receiver, method, parameter kinds
+var semTypedMethods = [][3]string{
+	{"sb", "Grow", "n"}, {"sb", "WriteString", "s"}, {"sb", "WriteByte", "n"}, {"sb", "WriteRune", "n"}, {"sb", "Write", "a"}, {"sb", "String", ""}, {"sb", "Len", ""}, {"sb", "Reset", ""}, {"sb", "Cap", ""},
+	{"tm", "Add", "d"}, {"tm", "Format", "s"}, {"tm", "Sub", "t"}, {"tm", "Before", "t"}, {"tm", "Equal", "t"}, {"tm", "Unix", ""}, {"tm", "Month", ""}, {"tm", "Weekday", ""}, {"tm", "Clock", ""}, {"tm", "Date", ""},
+	{"tm", "SleepUntil", ""}, {"du", "String", ""}, {"du", "Hours", ""}, {"du", "Seconds", ""}, {"du", "Milliseconds", ""}, {"wg", "Add", "n"}, {"wg", "Done", ""}, {"mu", "Lock", ""}, {"mu", "Unlock", ""},
+	{"mu", "TryLock", ""}, {"st", "Set", "n"}, {"ps", "Set", "n"}, {"pn", "Set", "n"}, {"st", "String", ""}, {"er", "Error", ""}, {"er", "Is", "x"}, {"er", "Unwrap", ""}, {"er", "Context", "x"},
+	{"strings.NewReader(s)", "Read", "a"}, {"time.Now()", "Add", "d"}, {"time.Unix(i64, i64)", "Format", "s"}, {"uuid.New()", "String", ""},
+}
+
+var semKindAtoms = map[byte][]string{
+	's': {"s", "e", "\"\"", "\"a\"", "\"abc\"", "\"%d %s %v %5.2f %x %q %*d %[3]d %!\"", "\"\\u00e9\\U0001F600\"", "\"\\x00\"", "\"9223372036854775808\"", "\"1e400\"", "\"-0x1p-2\"", "\"{\\\"a\\\":[1,{\\\"b\\\":null}]}\"", "\"[\"", "\"2006-01-02\"", "\"1h\"", "\"{{.}}\"", "\"{{\"", "\"%\"", "\"\\xff\"", "string(ab)", "fmt.Sprint(an)", "strings.Repeat(s, 100)"},
+	'n': {"i8", "i16", "i32", "i64", "i", "z", "u8", "r", "0", "1", "-1", "2", "36", "37", "63", "64", "65", "127", "128", "255", "256", "-129", "32768", "2147483648", "9223372036854775807", "-9223372036854775807 - 1", "1 << 62", "len(s)", "-i64", "'a'"},
+	'f': {"f32", "f64", "0.0", "-0.0", "0.1", "1e308", "1e-320", "-1.5", "math.Inf(1)", "math.NaN()", "float64(i64)", "i", "z"},
+	'b': {"b", "true", "false", "!b"},
+	'a': {"ai", "ab", "as", "aa", "an", "ae", "[]int{}", "[]int{1, 2, 3}", "[]byte{}", "[]string{}", "[]any{}", "[]any{[]any{nil}}", "[]float64{2.5, 1.5}", "ai[1:]", "ab[:0]", "make([]int, 3)"},
+	'm': {"m", "mi", "mn", "map[string]int{}", "map[string]any{\"a\": []int{1}}"},
+	'c': {"c128", "complex(0.0, 0.0)", "complex(1e308, 1e308)", "cmplx.Inf()"},
+	'F': {"fn", "func(a, b int) bool { return a < b }", "func(a int) bool { return a > 1 }", "func(a int, b int) bool { return ai[a] < ai[b] }", "func() {}", "func(a ...int) int { return len(a) }", "func(a, b int) bool { panic(\"cmp\") }", "func(a, b int) int { return a / z }"},
+	't': {"tm", "time.Now()", "time.Unix(0, 0)", "time.Unix(i64, i64)"},
+	'd': {"du", "time.Duration(0)", "time.Duration(i64)", "time.Duration(-1)"},
+}
+
+// genSemArg produces an argument of the given kind: mostly a value of that
+// kind, sometimes any expression.
+func genSemArg(t *rapid.T, kind byte, depth int) string {
+	pool := semKindAtoms[kind]
+	if pool == nil || rapid.IntRange(0, 4).Draw(t, "wild") == 0 {
+		return genSemExpr(t, depth)
+	}
+	return pool[rapid.IntRange(0, len(pool)-1).Draw(t, "typed")]
+}
+
 func genSemExpr(t *rapid.T, depth int) string {
 	atom := func() string {
 		switch rapid.IntRange(0, 2).Draw(t, "atom") {
@@ -87,7 +147,7 @@ func genSemExpr(t *rapid.T, depth int) string {
 		return atom()
 	}
 	sub := func() string { return genSemExpr(t, depth-1) }
-	switch rapid.IntRange(0, 13).Draw(t, "form") {
+	switch rapid.IntRange(0, 18).Draw(t, "form") {
 	case 0:
 		return atom()
 	case 1:
@@ -131,8 +191,23 @@ func genSemExpr(t *rapid.T, depth int) string {
 		default:
 			return "new(" + ty + ")"
 		}
+	case 11, 12:
+		// a typed method call on one of the declared values
+		m := semTypedMethods[rapid.IntRange(0, len(semTypedMethods)-1).Draw(t, "tmethod")]
+		args := make([]string, len(m[2]))
+		for i := range args {
+			args[i] = genSemArg(t, m[2][i], depth-1)
+		}
+		return m[0] + "." + m[1] + "(" + strings.Join(args, ", ") + ")"
 	default:
 		f := semFuncs[rapid.IntRange(0, len(semFuncs)-1).Draw(t, "func")]
+		if sig, ok := semSigs[f]; ok && rapid.IntRange(0, 3).Draw(t, "typedcall") != 0 {
+			args := make([]string, len(sig))
+			for i := range args {
+				args[i] = genSemArg(t, sig[i], depth-1)
+			}
+			return f + "(" + strings.Join(args, ", ") + ")"
+		}
 		n := rapid.IntRange(0, 4).Draw(t, "argc")
 		args := make([]string, n)
 		for i := range args {
